@@ -5,58 +5,7 @@
 
 package storage
 
-//@ -- ═════════ storage key space, continued (kinds 7..16) ═════════
-//@ -- Same scheme as in zz_contracts_c03_verif.go: one uninterpreted, axiomatically invertible constructor per prefix. The prefixes
-//@ -- added here are "UNIQUE" "SNAPSHOT" "TOPOLOGY" "SNAPTOPO" "WORKSNAPSHOT" "ASSETINFO" "ASSETTOTAL" and, for frames only,
-//@ -- "NODESTATEQUEUE" "CUSTODIANUPDATE" "WITHDRAWAL". Together with "UTXO" "GHOST" "DEPOSIT" "MINTUNIVERSAL" "TRANSACTION" "FINALIZATION" no
-//@ -- prefix is a prefix of another one (UTXO/UNIQUE differ at byte 1, SNAPSHOT/SNAPTOPO at byte 4, TOPOLOGY/TRANSACTION at byte 1,
-//@ -- ASSETINFO/ASSETTOTAL at byte 5, WORKSNAPSHOT/WITHDRAWAL at byte 1, all others at byte 0), every payload has a fixed width (32-byte
-//@ -- hashes, 8-byte big-endian integers), so the constructors are injective with pairwise disjoint ranges. ASSUMED (argued, not derived).
-//@ uninterp UniqKeyId(n mathint, h mathint) mathint
-//@ uninterp SnapKeyId(n mathint, r mathint, h mathint) mathint
-//@ uninterp TopoKeyId(o mathint) mathint
-//@ uninterp SnapTopoKeyId(h mathint) mathint
-//@ uninterp WorkSnapKeyId(n mathint, r mathint, ts mathint) mathint
-//@ uninterp AssetInfoKeyId(a mathint) mathint
-//@ uninterp AssetTotalKeyId(a mathint) mathint
-//@ uninterp keynode(k mathint) mathint
-//@ axiom forall n, h mathint :: {UniqKeyId(n, h)} keykind(UniqKeyId(n, h)) == 7 && keyhid(UniqKeyId(n, h)) == h && keynode(UniqKeyId(n, h)) == n
-//@ axiom forall n, r, h mathint :: {SnapKeyId(n, r, h)} keykind(SnapKeyId(n, r, h)) == 8 && keyhid(SnapKeyId(n, r, h)) == h && keynode(SnapKeyId(n, r, h)) == n && (0 <= r && r < 18446744073709551616 ==> keynum(SnapKeyId(n, r, h)) == r)
-//@ axiom forall o mathint :: {TopoKeyId(o)} keykind(TopoKeyId(o)) == 9 && (0 <= o && o < 18446744073709551616 ==> keynum(TopoKeyId(o)) == o)
-//@ axiom forall h mathint :: {SnapTopoKeyId(h)} keykind(SnapTopoKeyId(h)) == 10 && keyhid(SnapTopoKeyId(h)) == h
-//@ axiom forall n, r, ts mathint :: {WorkSnapKeyId(n, r, ts)} keykind(WorkSnapKeyId(n, r, ts)) == 11 && keynode(WorkSnapKeyId(n, r, ts)) == n
-//@ axiom forall a mathint :: {AssetInfoKeyId(a)} keykind(AssetInfoKeyId(a)) == 12 && keyhid(AssetInfoKeyId(a)) == a
-//@ axiom forall a mathint :: {AssetTotalKeyId(a)} keykind(AssetTotalKeyId(a)) == 13 && keyhid(AssetTotalKeyId(a)) == a
-//@ -- kinds 14 (NODESTATEQUEUE), 15 (CUSTODIANUPDATE), 16 (WITHDRAWAL) have no constructor here: they only occur in the assumed frames of the writers called by writeUTXO.
-//@ spec QK(n crypto.Hash, h crypto.Hash) mathint = UniqKeyId(kvval(n), kvval(h))
-//@ spec SK(n crypto.Hash, r mathint, h crypto.Hash) mathint = SnapKeyId(kvval(n), r, kvval(h))
-//@ spec AIK(a crypto.Hash) mathint = AssetInfoKeyId(kvval(a))
-//@ spec ATK(a crypto.Hash) mathint = AssetTotalKeyId(kvval(a))
-//@ -- KeyAsVal(k): the value id of the byte string whose key id is k (TOPOLOGY entries hold a snapshot key, SNAPTOPO entries a topology key).
-//@ -- Well defined because key ids are injective in the content (intended model: id == content).
-//@ uninterp KeyAsVal(k mathint) mathint
-
-//@ assume func graphUniqueKey
-//@   modifies nothing
-//@   ensures fresh(result) && kvkey(result) == QK(nodeId, txh)
-//@ assume func graphSnapshotKey
-//@   modifies nothing
-//@   ensures fresh(result) && kvkey(result) == SK(nodeId, round, snap) && kvval(result) == KeyAsVal(kvkey(result))
-//@ assume func graphTopologyKey
-//@   modifies nothing
-//@   ensures fresh(result) && kvkey(result) == TopoKeyId(order) && kvval(result) == KeyAsVal(kvkey(result))
-//@ assume func graphSnapTopologyKey
-//@   modifies nothing
-//@   ensures fresh(result) && kvkey(result) == SnapTopoKeyId(kvval(hash))
-//@ assume func graphWorkSnapshotKey
-//@   modifies nothing
-//@   ensures fresh(result) && kvkey(result) == WorkSnapKeyId(kvval(nodeId), round, ts)
-//@ assume func graphAssetInfoKey
-//@   modifies nothing
-//@   ensures fresh(result) && kvkey(result) == AIK(id)
-//@ assume func graphAssetTotalKey
-//@   modifies nothing
-//@   ensures fresh(result) && kvkey(result) == ATK(id)
+//@ -- (key space, kinds 7..17, QK renamed UQK, KeyAsVal, constructors: zz_contracts_keyspace_verif.go)
 
 //@ -- ═════════ badger_asset.go ═════════
 //@ -- TotalOf: the recorded supply of an asset in the view t: the amount encoded by the decimal text stored under ASSETTOTAL/<asset>, 0 when absent.
@@ -209,18 +158,7 @@ package storage
 //@   loop 0 invariant [info] (ver.Inputs[0].Deposit != nil ==> HasAssetInfo(*txn, ver.Asset)) && (ver.Inputs[0].Deposit == nil ==> badger.kvget(*txn, AIK(ver.Asset)) == old(badger.kvget(*txn, AIK(ver.Asset))))
 
 //@ -- ═════════ badger_topology.go / badger_work.go ═════════
-//@ -- writeTopology panics when the TOPOLOGY/<order> slot is taken (or cannot be read): the topological order is a unique cursor (C35's
-//@ -- subject). Under C15 a panic aborts the enclosing badger transaction before Commit. Hence `maypanic`.
-//@ func writeTopology
-//@   property C15
-//@   maypanic
-//@   requires txn != nil && SnapOK(snap)
-//@   modifies *txn
-//@   ensures [frame] forall k mathint :: {badger.kvget(*txn, k)} k != TopoKeyId(snap.TopologicalOrder) && k != SnapTopoKeyId(common.SnapId(snap.Snapshot)) ==> badger.kvget(*txn, k) == old(badger.kvget(*txn, k))
-//@   ensures [db] badger.txndb(*txn) == old(badger.txndb(*txn)) -- the transaction stays attached to its DB (needed by NewTransaction/Commit style callers: C15)
-//@   ensures [slot-free] old(badger.kvget(*txn, TopoKeyId(snap.TopologicalOrder))) == 0 -- on every returning execution the slot was free: an order is never reassigned
-//@   ensures [written] err == nil ==> badger.kvget(*txn, TopoKeyId(snap.TopologicalOrder)) == KeyAsVal(SnapKeyId(kvval(snap.NodeId), snap.RoundNumber, common.SnapId(snap.Snapshot))) &&
-//@       badger.kvget(*txn, SnapTopoKeyId(common.SnapId(snap.Snapshot))) == KeyAsVal(TopoKeyId(snap.TopologicalOrder))
+//@ -- writeTopology: ONE contract (properties C15, C35) in zz_contracts_c35_verif.go; the C15 clauses there are [c15-frame] [c15-written] [free] [db].
 
 //@ func writeSnapshotWork
 //@   property C15
@@ -260,7 +198,7 @@ package storage
 //@   requires [stored] forall i int :: {snap.Transactions[i]} 0 <= i && i < len(snap.Transactions) ==> HasTx(*txn, snap.Transactions[i]) -- otherwise readTransaction returns nil and finalizeTransaction dereferences it; established by the Debug block of WriteSnapshot (which panics first) and, before that, by kernel.validateSnapshotTransaction
 //@   modifies *txn
 //@   ensures [change] SnapChange(old(*txn), *txn, kvval(snap.NodeId), SnapKeyOf(snap), snap.TopologicalOrder, common.SnapId(snap.Snapshot))
-//@   ensures [unique] err == nil ==> forall i int :: {snap.Transactions[i]} 0 <= i && i < len(snap.Transactions) ==> badger.kvget(*txn, QK(snap.NodeId, snap.Transactions[i])) != 0
+//@   ensures [unique] err == nil ==> forall i int :: {snap.Transactions[i]} 0 <= i && i < len(snap.Transactions) ==> badger.kvget(*txn, UQK(snap.NodeId, snap.Transactions[i])) != 0
 //@   ensures [db] badger.txndb(*txn) == old(badger.txndb(*txn)) -- the transaction stays attached to its DB (needed by NewTransaction/Commit style callers: C15)
 //@   ensures [snapshot] err == nil ==> badger.kvget(*txn, SnapKeyOf(snap)) != 0
 //@   ensures [topology] err == nil ==> badger.kvget(*txn, TopoKeyId(snap.TopologicalOrder)) == KeyAsVal(SnapKeyOf(snap)) && badger.kvget(*txn, SnapTopoKeyId(common.SnapId(snap.Snapshot))) == KeyAsVal(TopoKeyId(snap.TopologicalOrder)) &&
@@ -268,24 +206,7 @@ package storage
 //@   loop 0 invariant [change] SnapChange(old(*txn), *txn, kvval(snap.NodeId), SnapKeyOf(snap), snap.TopologicalOrder, common.SnapId(snap.Snapshot))
 //@   loop 0 invariant [db] badger.txndb(*txn) == old(badger.txndb(*txn))
 //@   loop 0 invariant [untouched] forall k mathint :: {badger.kvget(*txn, k)} keykind(k) == 8 || keykind(k) == 9 || keykind(k) == 10 ==> badger.kvget(*txn, k) == old(badger.kvget(*txn, k))
-//@   loop 0 invariant [unique] forall j int :: {snap.Transactions[j]} 0 <= j && j <= rangeindex ==> badger.kvget(*txn, QK(snap.NodeId, snap.Transactions[j])) != 0
-
-//@ -- the Debug assertion block of WriteSnapshot reads the round cache of the snapshot's node (ROUND/<node>, kind 17)
-//@ uninterp RoundKeyId(h mathint) mathint
-//@ axiom forall h mathint :: {RoundKeyId(h)} keykind(RoundKeyId(h)) == 17 && keyhid(RoundKeyId(h)) == h
-//@ assume func graphRoundKey
-//@   modifies nothing
-//@   ensures fresh(result) && kvkey(result) == RoundKeyId(kvval(hash))
-//@ -- readRound: ASSUMED (the round codec is not under contract). Transcribed from the body: ErrKeyNotFound => (nil, nil), errors are
-//@ -- returned, otherwise the decoded round (it panics on a record whose hash field is zero: corrupt store). [references] is the store
-//@ -- invariant that a cached round with a positive number carries its references (every writer of ROUND/<node> after round 0 is
-//@ -- StartNewRound / UpdateEmptyHeadRound, which store a non-nil link).
-//@ assume func readRound
-//@   requires txn != nil
-//@   modifies nothing
-//@   ensures [present] err == nil && badger.kvget(*txn, RoundKeyId(kvval(hash))) != 0 ==> result0 != nil
-//@   ensures [fresh] result0 != nil ==> fresh(result0) && allocated(result0)
-//@   ensures [references] err == nil && result0 != nil && result0.Number > 0 ==> result0.References != nil && allocated(result0.References)
+//@   loop 0 invariant [unique] forall j int :: {snap.Transactions[j]} 0 <= j && j <= rangeindex ==> badger.kvget(*txn, UQK(snap.NodeId, snap.Transactions[j])) != 0
 
 //@ -- DbSnapChange: SnapChange over the committed state, plus the WORKSNAPSHOT record (kind 11) of this snapshot written by writeSnapshotWork.
 //@ spec DbSnapChange(a badger.DB, b badger.DB, node mathint, skey mathint, order mathint, sid mathint, wkey mathint) bool =
@@ -310,11 +231,12 @@ package storage
 //@   maypanic
 //@   requires StoreOK(s) && SnapOK(snap)
 //@   requires [signers] len(signers) < 144115188075855872 -- see writeSnapshotWork
-//@   requires [debug-block] badger.dbget(*s.snapshotsDB, RoundKeyId(kvval(snap.NodeId))) != 0 && (snap.RoundNumber > 0 ==> snap.References != nil) -- the assertion block dereferences the round cache and both reference links: kernel writes ROUND/<node> (StartNewRound) before the first snapshot of a round; a snapshot of a positive round carries references (C07 decoder: [count]/round rules)
+//@   requires [debug-block] let v == badger.dbget(*s.snapshotsDB, RK(snap.NodeId)) in v != 0 && common.RoundHashOf(v).HasValue() && (common.RoundNumberOf(v) > 0 ==> common.RoundHasRefs(v)) &&
+//@       (snap.RoundNumber > 0 ==> snap.References != nil) -- the assertion block dereferences the round cache and both reference links: kernel writes ROUND/<node> (StartNewRound, C20: a stored round has a non-zero hash; a round with a positive number carries its references) before the first snapshot of a round; a snapshot of a positive round carries references (C07 decoder: round rules)
 //@   modifies *s.snapshotsDB
 //@   ensures [atomic] err != nil ==> *s.snapshotsDB == old(*s.snapshotsDB)
 //@   ensures [change] DbSnapChange(old(*s.snapshotsDB), *s.snapshotsDB, kvval(snap.NodeId), SnapKeyOf(snap), snap.TopologicalOrder, common.SnapId(snap.Snapshot), WorkSnapKeyId(kvval(snap.NodeId), snap.RoundNumber, snap.Timestamp))
-//@   ensures [unique] err == nil ==> forall i int :: {snap.Transactions[i]} 0 <= i && i < len(snap.Transactions) ==> badger.dbget(*s.snapshotsDB, QK(snap.NodeId, snap.Transactions[i])) != 0
+//@   ensures [unique] err == nil ==> forall i int :: {snap.Transactions[i]} 0 <= i && i < len(snap.Transactions) ==> badger.dbget(*s.snapshotsDB, UQK(snap.NodeId, snap.Transactions[i])) != 0
 //@   ensures [snapshot] err == nil ==> badger.dbget(*s.snapshotsDB, SnapKeyOf(snap)) != 0
 //@   ensures [topology] err == nil ==> badger.dbget(*s.snapshotsDB, TopoKeyId(snap.TopologicalOrder)) == KeyAsVal(SnapKeyOf(snap)) && badger.dbget(*s.snapshotsDB, SnapTopoKeyId(common.SnapId(snap.Snapshot))) == KeyAsVal(TopoKeyId(snap.TopologicalOrder)) &&
 //@       old(badger.dbget(*s.snapshotsDB, TopoKeyId(snap.TopologicalOrder))) == 0
